@@ -274,6 +274,10 @@ func runC12(ctx *Ctx) error {
 	if err := corrGoJSON(ctx, ctx.N(1500, 20000)); err != nil {
 		return err
 	}
+	// form bodies of flat objects: runtime.MarshalForm / BindForm vs Model/Form.lean
+	if err := corrForm(ctx, ctx.N(600, 8000)); err != nil {
+		return err
+	}
 	return c12Body(ctx, &c12Rows{})
 }
 
